@@ -2,15 +2,20 @@ import ZipVerif.Spec.Tree
 /-
 Model of the two extractors on a Unix host:
 
-* `ZipArchive::extract` (src/read.rs:448-480): for every index `by_index(i)?`, `enclosed_name()` or
+* `ZipArchive::extract` (src/read.rs): for every index `by_index(i)?`, `enclosed_name()` or
   `InvalidArchive("Invalid file path")`, `outpath = directory.join(filepath)`; a name ending in '/' →
   `create_dir_all(outpath)`; otherwise `if let Some(p) = outpath.parent() { if !p.exists()
   { create_dir_all(p)? } }`, `File::create(outpath)?`, `io::copy`; then
-  `if let Some(mode) = file.unix_mode() { set_permissions(outpath, mode)? }`.
-* `ZipStreamReader::extract` (src/read/stream.rs:60-107): `visit_file` for every local entry — the same
+  `if let Some(mode) = file.unix_mode() { modes.push((path_depth(filepath), outpath, mode)) }`; after
+  the loop `apply_unix_modes(modes)?`: a stable sort by descending depth, then `set_permissions`.
+* `ZipStreamReader::extract` (src/read/stream.rs): `visit_file` for every local entry — the same
   without the `exists` test and without modes (a streamed entry has no external attributes) — and then
-  `visit_additional_metadata` for every central record: `enclosed_name()` or the same error, and
-  `set_permissions(directory.join(name), mode)` when `unix_mode()` is `Some`.
+  `visit_additional_metadata` for every central record: `enclosed_name()` or the same error, and the
+  same `push` when `unix_mode()` is `Some`; after the visit `apply_unix_modes`.
+  (Before the repair `fix: extract applies the recorded Unix modes after all entries are written,
+  deeper paths first` the seekable extractor applied each mode right after its entry and the streaming
+  one applied them in central-directory order: a read-only directory / a read-only first duplicate /
+  a directory without search permission made the rest of the run fail for an unprivileged caller.)
 
 An error aborts the run and leaves what was done so far on disk, so both functions return the final
 filesystem state together with the optional error.
@@ -77,65 +82,62 @@ def applyMode (c : Cfg) (root : Path) (n : Name) (mode : Option Nat) (fs : FS) :
     | .ok fs' => (fs', none)
     | .error er => (fs, some (.fs er))
 
-/-- One iteration of `ZipArchive::extract`. -/
-def seekEntry (c : Cfg) (root : Path) (e : EntryView) (fs : FS) : FS × Option Err :=
-  match e.openErr with
-  | some se => (fs, some (.src se))
-  | none =>
-    match enclosedName e.name with
-    | none => (fs, some .invalidPath)
-    | some _ =>
-      match placeEntry c true root e fs with
-      | (fs1, some er) => (fs1, some er)
-      | (fs1, none) => applyMode c root e.name e.mode fs1
-
-/-- `ZipArchive::extract(directory)`. -/
-def extractSeek (c : Cfg) (root : Path) : List EntryView → FS → FS × Option Err
-  | [], fs => (fs, none)
-  | e :: es, fs =>
-    match seekEntry c root e fs with
-    | (fs1, some er) => (fs1, some er)
-    | (fs1, none) => extractSeek c root es fs1
-
-/-- `Extractor::visit_file`. -/
-def streamFile (c : Cfg) (root : Path) (e : EntryView) (fs : FS) : FS × Option Err :=
-  match e.openErr with
-  | some se => (fs, some (.src se))
-  | none =>
-    match enclosedName e.name with
-    | none => (fs, some .invalidPath)
-    | some _ => placeEntry c false root e fs
-
-def streamFiles (c : Cfg) (root : Path) : List EntryView → FS → FS × Option Err
-  | [], fs => (fs, none)
-  | e :: es, fs =>
-    match streamFile c root e fs with
-    | (fs1, some er) => (fs1, some er)
-    | (fs1, none) => streamFiles c root es fs1
-
-/-- `Extractor::visit_additional_metadata`. -/
-def streamMeta (c : Cfg) (root : Path) (m : Name × Option Nat) (fs : FS) : FS × Option Err :=
-  match enclosedName m.1 with
-  | none => (fs, some .invalidPath)
-  | some _ => applyMode c root m.1 m.2 fs
-
-def streamMetas (c : Cfg) (root : Path) : List (Name × Option Nat) → FS → FS × Option Err
+/-- `apply_unix_modes` after the stable sort: `set_permissions(path, mode)?` for each pending mode. -/
+def applyModes (c : Cfg) (root : Path) : List (Name × Option Nat) → FS → FS × Option Err
   | [], fs => (fs, none)
   | m :: ms, fs =>
-    match streamMeta c root m fs with
+    match applyMode c root m.1 m.2 fs with
     | (fs1, some er) => (fs1, some er)
-    | (fs1, none) => streamMetas c root ms fs1
+    | (fs1, none) => applyModes c root ms fs1
+
+/-- One iteration of `ZipArchive::extract` (`chk = true`) / `Extractor::visit_file` (`chk = false`):
+the recorded mode is only remembered. -/
+def placeFile (c : Cfg) (chk : Bool) (root : Path) (e : EntryView) (fs : FS) : FS × Option Err :=
+  match e.openErr with
+  | some se => (fs, some (.src se))
+  | none =>
+    match enclosedName e.name with
+    | none => (fs, some .invalidPath)
+    | some _ => placeEntry c chk root e fs
+
+def placeFiles (c : Cfg) (chk : Bool) (root : Path) : List EntryView → FS → FS × Option Err
+  | [], fs => (fs, none)
+  | e :: es, fs =>
+    match placeFile c chk root e fs with
+    | (fs1, some er) => (fs1, some er)
+    | (fs1, none) => placeFiles c chk root es fs1
+
+/-- `ZipArchive::extract(directory)`: every entry is written; then `apply_unix_modes(modes)`:
+`modes.sort_by_key(|(depth, _, _)| Reverse(*depth))` (stable; `depth = path_depth(filepath)` =
+`pathDepth`) and `set_permissions` in that order (`modeOrder`, Spec/Tree.lean). -/
+def extractSeek (c : Cfg) (root : Path) (es : List EntryView) (fs : FS) : FS × Option Err :=
+  match placeFiles c true root es fs with
+  | (fs1, some er) => (fs1, some er)
+  | (fs1, none) => applyModes c root (modeOrder (es.map fun e => (e.name, e.mode))) fs1
+
+/-- `Extractor::visit_additional_metadata` for every central record, in order: `enclosed_name()` or
+the error; the mode is only remembered. -/
+def checkMetas : List (Name × Option Nat) → Option Err
+  | [] => none
+  | m :: ms =>
+    match enclosedName m.1 with
+    | none => some .invalidPath
+    | some _ => checkMetas ms
 
 /-- `ZipStreamReader::extract(directory)`: all local entries, then all central records; the reader
 insists on at least one central record after the local entries (an archive without entries starts
-with the end-of-central-directory signature, which `read_zipfile_from_stream` rejects). -/
+with the end-of-central-directory signature, which `read_zipfile_from_stream` rejects); when the
+visit has succeeded, `apply_unix_modes` as above. -/
 def extractStream (c : Cfg) (root : Path) (files : List EntryView) (metas : List (Name × Option Nat))
     (fs : FS) : FS × Option Err :=
-  match streamFiles c root files fs with
+  match placeFiles c false root files fs with
   | (fs1, some er) => (fs1, some er)
   | (fs1, none) =>
     match metas with
     | [] => (fs1, some .noCentral)
-    | _ => streamMetas c root metas fs1
+    | _ =>
+      match checkMetas metas with
+      | some er => (fs1, some er)
+      | none => applyModes c root (modeOrder metas) fs1
 
 end ZipVerif.Model.Extract
